@@ -2647,7 +2647,7 @@ class CaseExpr(ColExpr):
             self._ftype = Ftype.WINDOW
         else:
             raise FunctionTypeError(
-                "incompatible function types found in case statement: , ".join(val_ftypes),
+                "incompatible function types found in case statement: " + ", ".join(t.name for t in val_ftypes),
                 source=self._fn_id,
             )
 
